@@ -1,8 +1,8 @@
 (** C16 — Output order is the documented total order for each --sort attribute.
     Statements only; each closed by [exact] of a lemma in Proofs/. *)
 From Coq Require Import Permutation QArith.
-From DivanV Require Import Base.Res Generated.Consts Model.Natural Model.SortBy Model.ArgCmp
-  Proofs.SortCmp Proofs.Natural Proofs.ArgCmp.
+From DivanV Require Import Base.Res Generated.Consts Model.Natural Model.SortBy Model.ArgCmp Model.TreeCmp
+  Proofs.SortCmp Proofs.Natural Proofs.ArgCmp Proofs.ArgSb Proofs.TreeCmp.
 Local Open Scope N_scope.
 
 (** Obligation on the generated constant: the tie-breaker table of
@@ -126,3 +126,92 @@ Theorem C16_reverse_exact : forall V vcmp fparse names,
   rev (isort (revc false (arg_cmp V vcmp fparse attr)) (indexed names)).
 Proof. exact sort_args_reverse. Qed.
 Print Assumptions C16_reverse_exact.
+
+(** With the exact decimal oracle the extracted model never takes the panic
+    branch, on any list of names whatsoever. *)
+Theorem C16_sort_never_panics : forall attr rev names, exists out,
+  sort_args_dec attr rev names = Ok out.
+Proof. exact sort_args_dec_never_panics. Qed.
+Print Assumptions C16_sort_never_panics.
+
+(** The boolean specifications evaluated on the implementation's outputs hold
+    of the model: [sort_sb] (a permutation of the positions; read in the chosen
+    direction, every earlier argument is strictly before every later one in the
+    specified order, ties by position), the specified answer of one
+    comparison, and the key form of the natural order. *)
+Theorem C16_sort_model_sb : forall attr rev names out,
+  sort_args_dec attr rev names = Ok out -> sort_sb_dec attr rev names out = true.
+Proof. exact sort_args_dec_sb. Qed.
+Print Assumptions C16_sort_model_sb.
+
+Theorem C16_cmp_model_sb : forall names attr x y, D names x -> D names y ->
+  arg_cmp_dec attr x y = spec_arg_cmp_dec attr x y.
+Proof. exact arg_cmp_dec_spec. Qed.
+Print Assumptions C16_cmp_model_sb.
+
+Theorem C16_nat_model_sb : forall a b, natural_cmp a b = natural_spec a b.
+Proof. exact natural_cmp_spec. Qed.
+Print Assumptions C16_nat_model_sb.
+
+(** On valid UTF-8 every token is itself valid UTF-8: the [get_unchecked]
+    cuts of the tokeniser lie on character boundaries. *)
+Theorem C16_tokens_on_char_boundaries : forall s,
+  utf8_valid s -> Forall (fun t => utf8_valid (snd t)) (tokenize s).
+Proof. exact tokens_valid_utf8. Qed.
+Print Assumptions C16_tokens_on_char_boundaries.
+
+(** Sibling nodes: under the three stated conditions on the sibling set
+    (same address = same entry; siblings sharing a source location all have an
+    entry address or none; constants of a generic benchmark are not mixed with
+    other siblings and have one type) [cmp_by_attr] is a total preorder for
+    every attribute, and the sibling sort returns a sorted permutation without
+    reaching the panic branch, in both directions. *)
+Theorem C16_treecmp_total : forall (S : tree -> Prop) attr,
+  addr_identity S -> loc_addr_uniform S -> consts_uniform S ->
+  let c := cmp_by_attr attr in
+  (forall x y, S x -> S y -> c y x = CompOpp (c x y)) /\
+  (forall x y z, S x -> S y -> S z -> c x y = Lt -> c y z = Lt -> c x z = Lt) /\
+  (forall x y z, S x -> S y -> S z -> c x y = Eq -> c x z = c y z) /\
+  (forall rev l, Forall S l ->
+     sort_by (revc rev c) l = Ok (isort (revc rev c) l) /\
+     Permutation l (isort (revc rev c) l) /\ ssorted (revc rev c) (isort (revc rev c) l)).
+Proof. exact treecmp_total. Qed.
+Print Assumptions C16_treecmp_total.
+
+(** Two of the conditions are needed (witnesses of cycles without them): two
+    groups and an address-less parent at one location; a plain benchmark named
+    "-1x" beside the constants -2 and -1 of a generic benchmark. *)
+Theorem C16_treecmp_location_cycle_refuted :
+  cmp_by_attr SLocation w_a w_c = Lt /\ cmp_by_attr SLocation w_c w_b = Lt /\
+  cmp_by_attr SLocation w_a w_b = Gt.
+Proof. exact loc_addr_uniform_needed. Qed.
+Print Assumptions C16_treecmp_location_cycle_refuted.
+
+Theorem C16_treecmp_const_name_cycle_refuted :
+  cmp_by_attr SName w_m2 w_m1 = Lt /\ cmp_by_attr SName w_m1 w_x = Lt /\
+  cmp_by_attr SName w_x w_m2 = Lt.
+Proof. exact consts_uniform_needed. Qed.
+Print Assumptions C16_treecmp_const_name_cycle_refuted.
+
+(** [--sortr] on siblings (sorted with an unstable sort): the reverse of the
+    ascending order is a sorted permutation for the reversed comparator, and
+    the only one when no two distinct siblings tie; tied siblings may appear
+    in either order in both directions. *)
+Theorem C16_reverse_siblings : forall (S : tree -> Prop) attr,
+  addr_identity S -> loc_addr_uniform S -> consts_uniform S ->
+  forall l, Forall S l ->
+  let c := cmp_by_attr attr in
+  Permutation l (rev (isort c l)) /\ ssorted (revc true c) (rev (isort c l)) /\
+  ((forall x y, S x -> S y -> c x y = Eq -> x = y) ->
+   forall l', Permutation l l' -> ssorted (revc true c) l' -> l' = rev (isort c l)).
+Proof. exact siblings_reverse. Qed.
+Print Assumptions C16_reverse_siblings.
+
+(** Sorting only permutes: whenever the sort of a forest returns, the result
+    has the same entries under the same parents and the same arguments on the
+    same leaves (for every float oracle, every attribute, both directions). *)
+Theorem C16_permutes_only : forall V vcmp fparse attr rev ts ts',
+  sort_forest V vcmp fparse attr rev ts = Ok ts' ->
+  tree_perm (Parent [] None ts) (Parent [] None ts').
+Proof. exact sort_forest_perm. Qed.
+Print Assumptions C16_permutes_only.
